@@ -58,45 +58,104 @@ def outcome(fn):
     return {'err': False, 'id': int_to_bits(int(r[0])), 'exc': None}
 
 
-def unwrap(kind, idint, as_string=False, variant=0):
-    """variant (specObjID only): bit 0 = specLineIndex (the low bits come back in the column 'index' instead of 'line'),
-    bit 1 = run2d in the vN_M_P form instead of the integer form; the keywords are exercised in every combination."""
+# concretisation of IdLayout!IdForms: the SAME identifier values in each representation the documentation admits
+# ("an array containing 64-bit integers or strings"); the keys must be exactly the specification's set (checked in run()).
+FORMS = {'int': lambda a: a,
+         'swapped': lambda a: a.astype(a.dtype.newbyteorder()),          # as read from FITS
+         'ustr': lambda a: a.astype(str),                                 # decimal text strings
+         'bstr': lambda a: a.astype(str).astype('S')}                     # decimal byte strings (FITS string column)
+FORM_ORDER = ('int', 'ustr', 'bstr', 'swapped')
+
+
+def unwrap(kind, idint, form='int', variant=0):
+    """Unpack ONE identifier handed over as a one-element array in the given form."""
+    return unwrap_at(kind, np.array([idint], dtype=np.int64 if kind == 'obj' else np.uint64), form, variant, [0])[0]
+
+
+def unwrap_at(kind, ids, form, variant, positions):
+    """Unpack the array ids (int64 for objID, uint64 for specObjID) in ONE call and abstract the elements at `positions`.
+    variant (specObjID only): bit 0 = specLineIndex (the low bits come back in the column 'index' instead of 'line'),
+    bit 1 = run2d in the vN_M_P form instead of the integer form; the keywords are exercised in every combination.
+    form: one of IdLayout!IdForms (FORMS)."""
     from pydl.photoop.photoobj import unwrap_objid
     from pydl.pydlutils.sdss import unwrap_specobjid
+    a = FORMS[form](ids)
     if kind == 'obj':
-        a = np.array([idint], dtype=np.int64)
-        if as_string:
-            a = a.astype(str)
         u = unwrap_objid(a)
-        return {'skyversion': int(u.skyversion[0]), 'rerun': int(u.rerun[0]), 'run': int(u.run[0]),
-                'camcol': int(u.camcol[0]), 'firstfield': int(u.firstfield[0]), 'field': int(u.frame[0]),
-                'object': int(u.id[0])}
-    a = np.array([idint], dtype=np.uint64)
-    if as_string:
-        a = a.astype(str)
+        return [{'skyversion': int(u.skyversion[p]), 'rerun': int(u.rerun[p]), 'run': int(u.run[p]),
+                 'camcol': int(u.camcol[p]), 'firstfield': int(u.firstfield[p]), 'field': int(u.frame[p]),
+                 'object': int(u.id[p])} for p in positions]
     line_index = bool(variant & 1)
     as_int = not (variant & 2)
     u = unwrap_specobjid(a, run2d_integer=as_int, specLineIndex=line_index)
-    low = u['index'] if line_index else u['line']
-    if as_int:
-        r2 = int(u.run2d[0])
-    else:
-        # documented relation of the two forms (IdLayout!Run2dOfString): vN_M_P <-> (N-5)*10000 + M*100 + P
-        m = re.match(r'^v(\d+)_(\d+)_(\d+)$', str(u.run2d[0]))
-        r2 = (int(m.group(1)) - 5) * 10000 + int(m.group(2)) * 100 + int(m.group(3)) if m else -1
     if ('line' in u.dtype.names) == line_index or ('index' in u.dtype.names) != line_index:
-        return {'exc': 'columns %r with specLineIndex=%r' % (u.dtype.names, line_index)}
-    return {'plate': int(u.plate[0]), 'fiber': int(u.fiber[0]), 'mjd': int(u.mjd[0]), 'run2d': r2,
-            'line': int(low[0])}
+        return [{'exc': 'columns %r with specLineIndex=%r' % (u.dtype.names, line_index)} for p in positions]
+    low = u['index'] if line_index else u['line']
+    out = []
+    for p in positions:
+        if as_int:
+            r2 = int(u.run2d[p])
+        else:
+            # documented relation of the two forms (IdLayout!Run2dOfString): vN_M_P <-> (N-5)*10000 + M*100 + P
+            m = re.match(r'^v(\d+)_(\d+)_(\d+)$', str(u.run2d[p]))
+            r2 = (int(m.group(1)) - 5) * 10000 + int(m.group(2)) * 100 + int(m.group(3)) if m else -1
+        out.append({'plate': int(u.plate[p]), 'fiber': int(u.fiber[p]), 'mjd': int(u.mjd[p]), 'run2d': r2,
+                    'line': int(low[p])})
+    return out
 
 
 def arr1(v):
     return np.array([v], dtype=np.int64)
 
 
+# IdLayout!IntForms are NumPy's own type names; the order only fixes the rotation
+INT_ORDER = ('int64', 'int32', 'int16', 'uint16', 'uint8', 'int8', 'uint32', 'uint64')
+
+
+def typed_col(kind, nm, vals, g):
+    """The values of one argument as an array of the integer type g, as the caller supplies them (true MJD)."""
+    off = 50000 if (kind, nm) == ('spec', 'mjd') else 0
+    try:
+        return np.array([int(v) + off for v in vals], dtype=np.dtype(g))
+    except OverflowError:
+        raise core.MachineryError('IdLayout!FitsForm admits %s for %s = %r, NumPy does not' % (g, nm, vals))
+
+
+def rotate_types(c, n):
+    """Assignments of integer types to the arguments of the enumerated call c (number n in the dump), out of the types the
+    specification lists as admissible for each value (c.forms): every type admissible for ALL arguments given to all of
+    them (int64 is the plain call, already made), and one assignment with a different type for each argument, rotating."""
+    names = OBJ if c['kind'] == 'obj' else SPEC
+    adm = {nm: [g for g in INT_ORDER if g in c['forms'][nm]] for nm in names}
+    common = [g for g in INT_ORDER[1:] if all(g in adm[nm] for nm in names)]
+    mixed = {nm: adm[nm][(n + 3 * j) % len(adm[nm])] for j, nm in enumerate(names)}
+    return [{nm: g for nm in names} for g in common] + [mixed]
+
+
+def run_typed(c, types):
+    """The array conventions with the arguments in the integer types `types` (name -> IdLayout!IntForms)."""
+    kind, f, conv = c['kind'], c['f'], c['conv']
+    names = OBJ if kind == 'obj' else SPEC
+    if conv == 'array1':
+        cols = {nm: typed_col(kind, nm, [f[nm]], types[nm]) for nm in names}
+        return outcome(lambda: pack_cols(kind, cols, true_mjd=True))
+    if conv != 'array':
+        raise core.MachineryError('typed call with conv ' + conv)
+    cols = {nm: typed_col(kind, nm, [RANGES[kind][nm][0], f[nm], RANGES[kind][nm][0]], types[nm]) for nm in names}
+
+    def go():
+        r = np.asarray(pack_cols(kind, cols, true_mjd=True))
+        if r.shape != (3,):
+            raise core.MachineryError('array call returned shape %r' % (r.shape,))
+        return r[1:2]
+    return outcome(go)
+
+
 def run_case(c):
     """Execute one spec call c on the real code; return the observed outcome record."""
     kind, f, conv = c['kind'], c['f'], c['conv']
+    if c.get('types') and conv in ('array', 'array1'):
+        return run_typed(c, c['types'])
     call = call_obj if kind == 'obj' else call_spec
     if conv == 'scalar':
         if c['str']:
@@ -191,36 +250,253 @@ def vector_replay(ctx, kind, cases):
         return None, '%s: %s' % (type(ex).__name__, ex)
     got_int = [int(x) & (2**64 - 1) for x in got]
     bad = [k for k in range(len(cases)) if got_int[k] != want[k]]
-    # unpack the whole vector as integers (native and byte-swapped) and as decimal strings
+    # unpack the whole vector in every identifier form of the specification (IdLayout!IdForms)
     from pydl.photoop.photoobj import unwrap_objid
     from pydl.pydlutils.sdss import unwrap_specobjid
-    for as_string in (False, True, 'swapped'):
+    for form in FORM_ORDER:
         try:
             if kind == 'obj':
-                a = np.array(want, dtype=np.uint64).astype(np.int64)
-                if as_string == 'swapped':
-                    a = a.astype(a.dtype.newbyteorder())       # same values, other byte order (as read from FITS)
-                u = unwrap_objid(a.astype(str) if as_string is True else a)
+                a = FORMS[form](np.array(want, dtype=np.uint64).astype(np.int64))
+                u = unwrap_objid(a)
                 ucols = {'skyversion': u.skyversion, 'rerun': u.rerun, 'run': u.run, 'camcol': u.camcol,
                          'firstfield': u.firstfield, 'field': u.frame, 'object': u.id}
             else:
-                a = np.array(want, dtype=np.uint64)
-                if as_string == 'swapped':
-                    a = a.astype(a.dtype.newbyteorder())
-                u = unwrap_specobjid(a.astype(str) if as_string is True else a, run2d_integer=True)
+                a = FORMS[form](np.array(want, dtype=np.uint64))
+                u = unwrap_specobjid(a, run2d_integer=True)
                 ucols = {'plate': u.plate, 'fiber': u.fiber, 'mjd': u.mjd - 50000, 'run2d': u.run2d, 'line': u.line}
         except Exception as ex:
-            return None, 'unwrap(%s): %s: %s' % (as_string if as_string == 'swapped' else ('str' if as_string else 'int'), type(ex).__name__, ex)
+            return None, 'unwrap(%s): %s: %s' % (form, type(ex).__name__, ex)
         for n in names:
             neq = np.nonzero(np.asarray(ucols[n]).astype(np.int64) != cols[n])[0]
             bad.extend(int(k) for k in neq)
     return sorted(set(bad)), None
 
 
+def pack_cols(kind, cols, true_mjd=False):
+    if kind == 'obj':
+        from pydl.pydlutils.sdss import sdss_objid
+        return sdss_objid(cols['run'], cols['camcol'], cols['field'], cols['object'], rerun=cols['rerun'],
+                          skyversion=cols['skyversion'], firstfield=cols['firstfield'])
+    from pydl.pydlutils.sdss import sdss_specobjid
+    # the caller supplies the TRUE mjd in every convention
+    return sdss_specobjid(cols['plate'], cols['fiber'], cols['mjd'] if true_mjd else cols['mjd'] + 50000, cols['run2d'],
+                          line=cols['line'])
+
+
+UCOL = {'obj': {'skyversion': 'skyversion', 'rerun': 'rerun', 'run': 'run', 'camcol': 'camcol', 'firstfield': 'firstfield',
+                'field': 'frame', 'object': 'id'},
+        'spec': {'plate': 'plate', 'fiber': 'fiber', 'mjd': 'mjd', 'run2d': 'run2d', 'line': 'line'}}
+
+
+def long_arrays(ctx, seeds, probes, rejects, all_forms=True):
+    """Arrays of ARBITRARY length (MC_IdLayout families long / longq).  A seed state (kind, n) carries the base tuples, the
+    outcome TLC specifies for each of them and the plan of (identifier form, unwrap keywords); the array of length n is the
+    base repeated cyclically (IdLayout!ElemAt, concretised by numpy.resize).  Packing and unpacking the whole array must give,
+    at EVERY position, the outcome of the element alone; the probe states (kind, n, p) carry TLC's outcome for position p of
+    that array and are compared directly (and tie the tiling done here to ElemAt); the reject states put one out-of-range
+    element at a probe position."""
+    from pydl.photoop.photoobj import unwrap_objid
+    from pydl.pydlutils.sdss import unwrap_specobjid
+    forms_seen = set()
+    for (kind, n) in sorted(seeds):
+        c, exp = seeds[(kind, n)]
+        names = OBJ if kind == 'obj' else SPEC
+        base, per = c['base'], exp['per']
+
+        def tile(vals, dtype=None):
+            return np.resize(np.array(vals, dtype=dtype), n)       # element p = vals[p % len(vals)]
+        cols = {nm: tile([b[nm] for b in base], np.int64) for nm in names}
+        want_id = tile([bits_to_int(e['id']) for e in per], np.uint64)
+        want_u = {nm: tile([e['u'][nm] for e in per], np.int64) for nm in names}
+        want_s = tile(['v%d_%d_%d' % tuple(e['s']) for e in per]) if kind == 'spec' else None
+        pr = sorted(probes.get((kind, n), []), key=lambda t: t[0]['pos'])
+        if not pr:
+            raise core.MachineryError('no probe states for the array (%s, %d)' % (kind, n))
+        for pc, pe in pr:                                            # the tiling here is IdLayout!ElemAt
+            p = pc['pos']
+            if (int(want_id[p]) != bits_to_int(pe['id']) or any(int(want_u[nm][p]) != pe['u'][nm] for nm in names) or
+                    (kind == 'spec' and want_s[p] != 'v%d_%d_%d' % tuple(pe['s']))):
+                raise core.MachineryError('tiling of the base tuples disagrees with IdLayout!ElemAt at %r' % (pc,))
+        ctx.nontriv(('long', kind, n))
+
+        def report(what, pos, got, want, types=None, finding=None):
+            call = {'kind': kind, 'f': {nm: int(cols[nm][pos]) for nm in names}, 'conv': 'array', 'which': '', 'str': []}
+            if types:
+                call['types'] = types
+            ctx.violation({'what': '%s array of %d elements, %s: position %d gives %s, specified %s (the packed tuple: %s)' % (
+                kind, n, what, pos, got, want, call['f']), 'long': {'kind': kind, 'len': n, 'pos': int(pos)}, 'call': call,
+                'expected': {'err': False, 'id': int_to_bits(int(want_id[pos]))}}, finding=finding)
+        # ---- pack the whole array in one call: int64 arguments, then every other integer type of the specification for
+        # the arguments whose column it can represent (seed.forms = IdLayout!FormsOf over the base tuples)
+        for g in INT_ORDER:
+            types = {nm: (g if g in c['forms'][nm] else 'int64') for nm in names}
+            if g != 'int64' and set(types.values()) == {'int64'}:
+                continue
+            tcols = {nm: tile(typed_col(kind, nm, [b[nm] for b in base], types[nm])) for nm in names}
+            pack_what = 'packed from %s arguments' % ('int64' if g == 'int64' else str(types))
+            long_pack(ctx, kind, n, tcols, want_id, pr, report, pack_what, types)
+        # ---- unpack the whole array, every (form, keywords) combination of the plan
+        for x in sorted(c['plan'], key=repr):
+            x = dict(x)
+            form, opt = x['form'], dict(x['opt'])
+            forms_seen.add(form)
+            if form not in FORMS:
+                raise core.MachineryError('IdLayout!IdForms has the form %r the harness cannot concretise' % form)
+            what = 'unpacked from %s%s' % (form, (' (specLineIndex=%r, run2d_integer=%r)' % (opt['lineIndex'], not opt['run2dString']))
+                                           if kind == 'spec' else '')
+            ctx.evaluated(1, 'long-unwrap')
+            ctx.validated()
+            a = FORMS[form](want_id.astype(np.int64) if kind == 'obj' else want_id)
+            try:
+                if kind == 'obj':
+                    u = unwrap_objid(a)
+                else:
+                    u = unwrap_specobjid(a, run2d_integer=not opt['run2dString'], specLineIndex=opt['lineIndex'])
+            except Exception as ex:
+                report(what, 0, '%s: %s' % (type(ex).__name__, str(ex)[:100]), {nm: int(want_u[nm][0]) for nm in names})
+                continue
+            if u.shape != (n,):
+                report(what, 0, 'shape %r' % (u.shape,), 'shape (%d,)' % n)
+                continue
+            colmap = dict(UCOL[kind])
+            if kind == 'spec':
+                colmap['line'] = opt['lowcol']
+                if sorted(u.dtype.names) != sorted(colmap.values()):
+                    report(what, 0, 'columns %r' % (u.dtype.names,), 'columns %r' % (sorted(colmap.values()),))
+                    continue
+            badpos = set()
+            for nm in names:
+                g = np.asarray(u[colmap[nm]])
+                if kind == 'spec' and nm == 'run2d' and opt['run2dString']:
+                    neq = np.flatnonzero(g.astype(str) != want_s)
+                else:
+                    neq = np.flatnonzero(g.astype(np.int64) != want_u[nm]) if g.dtype.kind in 'iu' else np.arange(n)
+                badpos.update(neq.tolist())
+            if badpos:
+                at = [pc['pos'] for pc, _ in pr if pc['pos'] in badpos]
+                k = at[0] if at else min(badpos)
+                gotk = {nm: (str(u[colmap[nm]][k]) if u[colmap[nm]].dtype.kind in 'US' else int(u[colmap[nm]][k])) for nm in names}
+                wantk = {nm: int(want_u[nm][k]) for nm in names}
+                if kind == 'spec' and opt['run2dString']:
+                    wantk['run2d'] = str(want_s[k])
+                report(what + ' (%d positions differ)' % len(badpos), k, gotk, wantk)
+    if seeds and all_forms and forms_seen != set(FORMS):
+        raise core.MachineryError('identifier forms driven %r, IdLayout!IdForms concretised here %r' % (sorted(forms_seen), sorted(FORMS)))
+    long_rejects(ctx, seeds, rejects)
+
+
+def long_pack(ctx, kind, n, cols, want_id, pr, report, what, types):
+    """One packing call on the whole array of length n (columns already in their integer types, true MJD)."""
+    ctx.evaluated(1, 'long-pack')
+    ctx.validated()
+    fid = classify({'kind': kind, 'conv': 'array', 'types': types}, {'err': False}, {})
+    try:
+        got = np.asarray(pack_cols(kind, cols, true_mjd=True))
+    except Exception as ex:
+        report(what, 0, '%s: %s' % (type(ex).__name__, str(ex)[:100]), int(want_id[0]), types, fid)
+        return
+    if got.shape != (n,) or got.dtype.kind not in 'iu' or got.dtype.itemsize != 8:
+        report(what, 0, 'shape %r dtype %s' % (got.shape, got.dtype), 'shape (%d,) 64-bit integer' % n, types, fid)
+        return
+    neq = np.flatnonzero(got.astype(np.uint64) != want_id)
+    if neq.size:
+        bad = set(neq.tolist())
+        at = [pc['pos'] for pc, _ in pr if pc['pos'] in bad]
+        k = at[0] if at else int(neq[0])
+        report('%s (%d positions differ)' % (what, neq.size), k, int(got[k]) & (2**64 - 1), int(want_id[k]), types, fid)
+
+
+def long_rejects(ctx, seeds, rejects):
+    # ---- one out-of-range element at a probe position of a long array rejects the call
+    tiled = {}
+    for c, exp in rejects:
+        kind, n, p = c['k'], c['len'], c['pos']
+        names = OBJ if kind == 'obj' else SPEC
+        if (kind, n) not in seeds:
+            raise core.MachineryError('reject state without its seed: %r' % (c,))
+        if (kind, n) not in tiled:
+            tiled.clear()
+            tiled[(kind, n)] = {nm: np.resize(np.array([b[nm] for b in seeds[(kind, n)][0]['base']], dtype=np.int64), n) for nm in names}
+        cols = tiled[(kind, n)]
+        keep = {nm: cols[nm][p] for nm in names}
+        for nm in names:
+            cols[nm][p] = c['t'][nm]
+        try:
+            obs = outcome(lambda: np.asarray(pack_cols(kind, cols))[p:p + 1])
+        finally:
+            for nm in names:
+                cols[nm][p] = keep[nm]
+        ctx.evaluated(1, 'long-reject')
+        ctx.validated()
+        if not (obs['err'] == exp['err'] and obs['exc'] == 'ValueError'):
+            ctx.violation({'what': '%s array of %d elements whose element %d is %s (%s out of range): expected ValueError, observed %s' % (
+                kind, n, p, c['t'], c['which'], obs), 'long': {'kind': kind, 'len': n, 'pos': p, 'reject': True},
+                'call': {'kind': kind, 'f': c['t'], 'conv': 'array', 'which': '', 'str': []}, 'expected': {'err': True, 'id': []}})
+
+
+def random_type(rng, kind, nm, vals):
+    """A random integer type that represents the supplied values (NumPy decides; Trace_IdLayout!TypesOK re-judges it)."""
+    g = rng.choice(INT_ORDER)
+    off = 50000 if (kind, nm) == ('spec', 'mjd') else 0
+    try:
+        np.array([int(v) + off for v in vals] + [off + 1], dtype=np.dtype(g))     # ... and a true MJD > 50000 at all
+    except OverflowError:
+        return 'int64'
+    return g
+
+
+def recorded_long_arrays(ctx, rng):
+    """code -> spec on LONG arrays: n random in-range tuples are packed in one call and unpacked in one call (random
+    identifier form and keywords); the elements at the first, last, power-of-two and random positions are recorded and
+    judged by Trace_IdLayout like any other call (the specification declares length and position irrelevant)."""
+    recs = []
+    for kind in ('obj', 'spec'):
+        for rep in range(1 if ctx.quick else 3):
+            n = rng.randint(2**16 + 2, 2**17 + 2**15) if rep == 0 else rng.randint(2**17, 2**21 + 2**10)
+            g = np.random.default_rng(rng.getrandbits(32))
+            cols = {nm: g.integers(lo, hi + 1, n) for nm, (lo, hi) in RANGES[kind].items()}
+            types = {nm: random_type(rng, kind, nm, RANGES[kind][nm]) for nm in cols}
+            tcols = {nm: (cols[nm] + (50000 if (kind, nm) == ('spec', 'mjd') else 0)).astype(np.dtype(types[nm])) for nm in cols}
+            form, variant = rng.choice(FORM_ORDER), rng.randrange(4)
+            pos = sorted({0, n - 1} | {q for k in range(1, 22) for q in (2**k - 1, 2**k, 2**k + 1) if q < n} |
+                         {rng.randrange(n) for _ in range(120)})
+            ids = u = None
+            try:
+                ids = np.asarray(pack_cols(kind, tcols, true_mjd=True))
+                if ids.shape != (n,) or ids.dtype.kind not in 'iu' or ids.dtype.itemsize != 8:
+                    exc = 'shape %r dtype %s' % (ids.shape, ids.dtype)
+                    ids = None
+                else:
+                    exc = ''
+            except Exception as ex:
+                exc = type(ex).__name__ if isinstance(ex, ValueError) else '%s: %s' % (type(ex).__name__, str(ex)[:100])
+            if ids is not None:
+                try:
+                    u = unwrap_at(kind, ids.astype(np.int64 if kind == 'obj' else np.uint64), form, variant, pos)
+                except Exception as ex:
+                    u = [{'exc': repr(ex)[:200]}] * len(pos)
+            for k, p in enumerate(pos):
+                f = {nm: int(cols[nm][p]) for nm in cols}
+                recs.append({'kind': kind, 'f': f, 'conv': 'array',
+                             'ret': {'err': ids is None, 'id': int_to_bits(int(ids[p])) if ids is not None else []},
+                             'exc': exc, 'unwrapped': u[k] if u is not None else {}, 'form': form, 'len': n, 'pos': p,
+                             'types': types})
+                ctx.nontriv((kind, tuple(sorted(f.items()))))
+    return recs
+
+
 def classify(c, exp, obs):
     """Name the known deviation that explains this mismatch exactly, if any (spec: Dev_* operators)."""
     if c['kind'] == 'spec' and c['conv'] in ('array', 'array1') and not exp['err'] and obs.get('exc') == 'ValueError':
         return 'D-C06-1'
+    # IdLayout!Dev_ObjNarrowTypeApplies
+    if (c['kind'] == 'obj' and c['conv'] in ('array', 'array1') and not exp['err'] and
+            any(g != 'int64' for g in (c.get('types') or {}).values())):
+        return 'D-C06-2'
+    # IdLayout!Dev_Uint16MjdWraps
+    if (c['kind'] == 'spec' and c['conv'] in ('array', 'array1') and exp['err'] and not obs.get('err', True) and
+            (c.get('types') or {}).get('mjd') == 'uint16'):
+        return 'D-C06-3'
     return None
 
 
@@ -235,9 +511,17 @@ def run(ctx):
     r = ctx.tlc('MC_IdLayout.tla', cfg, dump=True, timeout=1500)
     vec = {'obj': [], 'spec': []}
     r2cases = []
+    seeds, probes, rejects = {}, {}, []
+    types_seen = set()
     n = 0
     for st in core.iter_states(r):
         c, exp = st['c'], st['exp']
+        if c['kind'] == 'longseed':
+            seeds[(c['k'], c['len'])] = (c, exp)
+        elif c['kind'] == 'long':
+            probes.setdefault((c['k'], c['len']), []).append((c, exp))
+        elif c['kind'] == 'longrej':
+            rejects.append((c, exp))
         if c['kind'] not in ('obj', 'spec'):
             continue
         n += 1
@@ -251,7 +535,7 @@ def run(ctx):
             r2cases.append((c, exp))
         if c['conv'] == 'array' and not exp['err']:
             vec[c['kind']].append((c, exp))
-            if not ctx.quick and n % 40:
+            if not ctx.quick and n % 40 and 'forms' not in c:
                 continue          # thorough: the big sweeps go through the vectorised path; every 40th also singly
         obs = run_case(c)
         ctx.evaluated(1, c['conv'])
@@ -260,9 +544,11 @@ def run(ctx):
                 (obs['exc'] in (None, 'ValueError')))
         if good and not exp['err']:
             idint = bits_to_int(exp['id'])
-            for as_string in (False, True):
+            # the integer form and one string form always, the remaining two forms in rotation; keywords in rotation
+            for fk, form in enumerate(('int', ('ustr', 'bstr')[n % 2], ('swapped', 'bstr', 'ustr')[n % 3])):
+                variant = (n + 2 * fk + fk // 2) % 4
                 try:
-                    u = unwrap(c['kind'], idint, as_string, variant=(n + 2 * as_string) % 4)
+                    u = unwrap(c['kind'], idint, form, variant=variant)
                 except Exception as ex:
                     u = {'exc': repr(ex)}
                 w = dict(c['f'])
@@ -270,19 +556,36 @@ def run(ctx):
                     w['mjd'] += 50000
                 if u != w:
                     good = False
-                    obs = dict(obs, unwrapped=u, unwrap_as_string=as_string, unwrap_variant=(n + 2 * as_string) % 4)
+                    obs = dict(obs, unwrapped=u, unwrap_form=form, unwrap_variant=variant)
             if c['str'] and good:
                 from pydl.pydlutils.sdss import unwrap_specobjid
                 s = unwrap_specobjid(np.array([idint], dtype=np.uint64)).run2d[0]
                 if s != 'v%d_%d_%d' % tuple(c['str']):
                     good = False
                     obs = dict(obs, run2d_string=str(s))
+        forms = c.pop('forms', None)
         if n % 500 == 1:
             ctx.sample({'call': c, 'expected': exp, 'observed': obs})
         if not good:
             ctx.violation({'what': 'call %s(%s, conv=%s) expected %s observed %s' % (c['kind'], c['f'], c['conv'], exp, obs),
                            'call': c, 'expected': exp, 'observed': obs}, finding=classify(c, exp, obs))
+        if forms is not None and c['conv'] in ('array', 'array1'):
+            # the same call with the arguments in other integer types: TLC's outcome for the same VALUES (IntFormIndependent)
+            for types in rotate_types(dict(c, forms=forms), n):
+                ct = dict(c, types=types)
+                obs = run_case(ct)
+                ctx.evaluated(1, 'typed-' + c['conv'])
+                ctx.validated()
+                types_seen.update(types.values())
+                if not (obs['err'] == exp['err'] and obs['id'] == exp['id'] and obs['exc'] in (None, 'ValueError')):
+                    ctx.violation({'what': 'call %s(%s, conv=%s, argument types %s) expected %s observed %s' % (
+                        c['kind'], c['f'], c['conv'], types, exp, obs), 'call': ct, 'expected': exp, 'observed': obs},
+                        finding=classify(ct, exp, obs))
+    if types_seen != set(INT_ORDER):
+        raise core.MachineryError('integer types driven %r, concretised here %r' % (sorted(types_seen), sorted(INT_ORDER)))
     run2d_arrays(ctx, r2cases)
+    rejects.sort(key=lambda t: (t[0]['k'], t[0]['len'], t[0]['pos'], t[0]['which'], sorted(t[0]['t'].items())))
+    long_arrays(ctx, seeds, probes, rejects)
     for kind in ('obj', 'spec'):
         if not vec[kind]:
             continue
@@ -319,19 +622,27 @@ def run(ctx):
             f['mjd'] = max(f['mjd'], -50000 + 1) if f['mjd'] < -40000 else f['mjd']
         conv = rng.choice(['scalar', 'array1', 'array'])
         c = {'kind': kind, 'f': f, 'conv': conv, 'which': '', 'str': []}
+        if conv == 'scalar':
+            types = {nme: 'python' for nme in f}
+        else:
+            types = {nme: random_type(rng, kind, nme, [v]) for nme, v in f.items()}
+            c['types'] = types
         obs = run_case(c)
-        rec = {'kind': kind, 'f': f, 'conv': conv, 'ret': {'err': obs['err'], 'id': obs['id']}, 'exc': obs['exc'] or ''}
+        rec = {'kind': kind, 'f': f, 'conv': conv, 'ret': {'err': obs['err'], 'id': obs['id']}, 'exc': obs['exc'] or '',
+               'types': types}
         if not obs['err']:
             try:
-                u = unwrap(kind, bits_to_int(obs['id']), as_string=bool(k % 2), variant=(k // 2) % 4)
+                u = unwrap(kind, bits_to_int(obs['id']), FORM_ORDER[k % 4], variant=(k // 4) % 4)
             except Exception as ex:
                 u = {'exc': repr(ex)}
             rec['unwrapped'] = u
         else:
             rec['unwrapped'] = {}
+        rec.update(form=FORM_ORDER[k % 4], len={'scalar': 1, 'array1': 1, 'array': 3}[conv], pos=1 if conv == 'array' else 0)
         recs.append(rec)
         if all(lo <= f[nme] <= hi for nme, (lo, hi) in RANGES[kind].items()):
             ctx.nontriv((kind, tuple(sorted(f.items()))))
+    recs.extend(recorded_long_arrays(ctx, rng))
     bad = core.validate_records(ctx, 'Trace_IdLayout', recs)
     ctx.evaluated(len(recs), 'recorded')
     ctx.validated(len(recs))
@@ -340,9 +651,10 @@ def run(ctx):
             bad[k] = 'exception ' + rec['exc']
     for k in sorted(bad):
         rec = recs[k]
-        c = {'kind': rec['kind'], 'conv': rec['conv']}
+        c = {'kind': rec['kind'], 'conv': rec['conv'], 'types': rec['types']}
         ctx.violation({'what': 'recorded call rejected by Trace_IdLayout (%s): %s' % (bad[k], rec), 'record': rec},
-                      finding=classify(c, {'err': False}, {'exc': rec['exc']}))
+                      finding=classify(c, {'err': not all(lo <= rec['f'][nme] <= hi for nme, (lo, hi) in RANGES[rec['kind']].items())},
+                                       {'exc': rec['exc'], 'err': rec['ret']['err']}))
     ctx.sample({'recorded_call': recs[0]})
     # ---- binding self-test: falsified observations must be rejected by the same judge ----------
     import copy
@@ -418,10 +730,35 @@ def replay(ctx, case):
     """bin/check C06 --replay <file>: re-execute the single failing call of a replay file."""
     ctx.level = 'model_checking'
     ctx.rule = 'single replayed case'
+    if 'long' in case:
+        # a position of a long array: re-enumerate that array's states (seed, probes, rejects) and drive it again
+        lg = case['long']
+        for cfg in ('MC_IdLayout_quick.cfg', 'MC_IdLayout_thorough.cfg'):
+            r = ctx.tlc('MC_IdLayout.tla', cfg, dump=True, timeout=1500)
+            seeds, probes, rejects = {}, {}, []
+            for st in core.iter_states(r):
+                c, exp = st['c'], st['exp']
+                if c['kind'] not in ('longseed', 'long', 'longrej') or (c['k'], c['len']) != (lg['kind'], lg['len']):
+                    continue
+                if c['kind'] == 'longseed':
+                    seeds[(c['k'], c['len'])] = (c, exp)
+                elif c['kind'] == 'long':
+                    probes.setdefault((c['k'], c['len']), []).append((c, exp))
+                elif lg.get('reject') and (c['pos'], c['t']) == (lg['pos'], case['call']['f']):
+                    rejects.append((c, exp))
+            if seeds:
+                break
+        if not seeds:
+            raise core.MachineryError('no enumerated array (%s, %d)' % (lg['kind'], lg['len']))
+        long_arrays(ctx, seeds, probes, rejects, all_forms=False)
+        ctx.nontriv('a'); ctx.nontriv('b')
+        return
     c = case.get('call') or case.get('first_call')
     if c is None and 'record' in case:
         r = case['record']
         c = {'kind': r['kind'], 'f': r['f'], 'conv': r['conv'], 'which': '', 'str': []}
+        if r['conv'] != 'scalar' and r.get('types'):
+            c['types'] = r['types']
     obs = run_case(c)
     print('replayed call:', c, '\nobserved:', obs, '\nexpected:', case.get('expected'))
     ctx.evaluated(1)
